@@ -1,4 +1,5 @@
 import MgpuProofs.C12_K
+import MgpuProofs.C12_K2
 /-!
 # C12 (k threads) — FIFO, deadlock freedom and termination of the repaired hand-off protocol for
 ANY number of application threads and ANY number of command queues
@@ -256,6 +257,54 @@ example : ∃ s, runSched (init [[.enq 0, .drain 0], [.enq 0, .drain 0]] 1)
     s.apps.map (·.pc) = [.waiting, .waiting] ∧ s.qs.map (·.cmds) = [[1, 2]] ∧ s.evt = true ∧ ¬ stuck s := by
   refine ⟨_, rfl, by decide, by decide, by decide, ?_⟩
   intro h; have := h .eng; simp [step] at this
+
+/-! ### the two-thread gate harness observes states of this model -/
+
+/-- **Every gate-level move is a run of the model.** A move of the schedule-forcing harness for k
+    application threads (`harness/c12_gate2.go`, role `a<j>` / `r` / `e`: release one parked
+    goroutine and wait until everything is parked or blocked again — `macroStepK`, including the
+    first-in first-out service of the senders blocked on `enqueueSignal`) is a finite sequence of
+    atomic `K.step`s. The `c12 ksched2` cases therefore compare the real goroutines with runs of the
+    very transition relation the theorems above quantify over. -/
+theorem macroStepK_is_run (g g' : GSt) (role : String) (h : macroStepK g role = some g') :
+    ∃ ts, runSched g.st ts = some g'.st :=
+  macroStepK_isRun g g' role h
+
+/-- **Every state the gate harness observes is reachable.** For scripts that end with a drain, the
+    state after any list of harness moves (moves of roles that cannot move are skipped, as in
+    `runTraceK`) is `Reach`able: `no_stuck_state`, `drain_terminates`, `no_lost_wakeup`,
+    `waiter_queue_served` and `blocked_waiter_has_mover` all apply to it. -/
+theorem observed_states_reach (scripts : List (List Op)) (nq : Nat)
+    (hok : ∀ sc ∈ scripts, okScript sc = true) (roles : List String) :
+    Reach (finalK (initK scripts nq) roles).st :=
+  finalK_reach roles _ (Reach.init scripts nq hok)
+
+/-- … in particular an observed state in which no thread can move has every script finished, and
+    from every observed state all maximal executions end with all drains returned. -/
+theorem observed_state_not_stuck_and_terminates (scripts : List (List Op)) (nq : Nat)
+    (hok : ∀ sc ∈ scripts, okScript sc = true) (roles : List String) :
+    let s := (finalK (initK scripts nq) roles).st
+    (stuck s → finished s) ∧ AllRunsFinish (measure s) s :=
+  ⟨no_stuck_state (observed_states_reach scripts nq hok roles),
+   drain_terminates (observed_states_reach scripts nq hok roles) _ (Nat.le_refl _)⟩
+
+open Th in
+/-- non-vacuity: two threads sharing one queue; thread 1 blocks in the send while `runAsync` is busy
+    with thread 0's signal (harness moves `a0 a1 a0 a1 a0 a1 r`), and is served (first in, first
+    out) when `runAsync` is back in its `select` — the macro move `r` is the two atomic steps
+    `async`, `app 1` of two different threads. -/
+example : ∃ s, runSched (init [[.enq 0, .drain 0], [.enq 0, .drain 0]] 1)
+      [app 0, app 0, app 1, app 1, app 0, app 1, app 0, app 1, async] = some s ∧
+    s.apps.map (·.pc) = [.chk, .sending] ∧ s.r = .chkFlag ∧
+    (macroStepK { st := s, blocked := [1] } "r").map
+      (fun g' => (g'.blocked, g'.st.apps.map (·.pc), g'.st.r, g'.st.e, g'.st.running)) =
+      some ([], [.chk, .chk], .tick, .start, true) ∧
+    (runSched s [async, app 1]).map (fun s' => (s'.apps.map (·.pc), s'.r, s'.e, s'.running)) =
+      some ([.chk, .chk], .tick, .start, true) := by
+  refine ⟨_, rfl, by decide, by decide, ?_, by decide⟩
+  unfold macroStepK
+  rw [if_pos rfl]
+  decide
 
 end K
 end C12
